@@ -45,7 +45,7 @@ ScanFrom(f, ds, i) ==
   ELSE IF BUG_F6 /\ f[ds[i]].st = "badanc" THEN <<>>
   ELSE (IF f[ds[i]].st = "dir"
         THEN SelectSeq([k \in 1..Len(NameOrder) |-> <<i, NameOrder[k]>>],
-                       LAMBDA e : e[2] \in SpecNames /\ f[ds[i]].ents[e[2]].k # "none")
+                       LAMBDA e : e[2] \in SpecNames /\ f[ds[i]].ents[e[2]].k \notin {"none", "dirent"})
         ELSE <<>>) \o ScanFrom(f, ds, i + 1)
 
 EmptyIdx == [devs |-> [q \in QNs |-> Unres], specs |-> {}, errs |-> {}]
@@ -58,7 +58,7 @@ Alg(f, ds, scan, k, devices, conflicts, specs, errs) ==
   ELSE LET i == scan[k][1]
            n == scan[k][2]
            c == f[ds[i]].ents[n] IN
-       IF c.k # "ok"
+       IF c.k \notin ValidKinds
        THEN Alg(f, ds, scan, k + 1, devices, conflicts, specs, errs \cup {<<ds[i], n>>})
        ELSE LET mine  == { q \in QNs : q[1] = c.kind /\ q[2] \in c.ds }
                 equal == { q \in mine : devices[q].p = i }
@@ -84,11 +84,12 @@ View(f, ds, ix) ==
    specs   |-> { [kind |-> f[ds[s[1]]].ents[s[2]].kind, p |-> s[1] - 1, dir |-> ds[s[1]], f |-> s[2]]
                  : s \in ix.specs },
    errmust |-> FilesInError(f, ds, SpecNames),
-   errmay  |-> FilesInError(f, ds, SpecNames) \cup ConflictFiles(f, ds, SpecNames, Kinds, Devs),
+   errmay  |-> FilesInError(f, ds, SpecNames) \cup ConflictFiles(f, ds, SpecNames, Kinds, Devs)
+               \cup MayFailFiles(f, ds, SpecNames),
    \* C13: Refresh() error is pinned to non-nil when a Spec file is in error, to nil when
    \* everything is clean and nothing conflicts; otherwise either
    rerr    |-> IF FilesInError(f, ds, SpecNames) # {} THEN "err"
-               ELSE IF ConflictFiles(f, ds, SpecNames, Kinds, Devs) = {}
+               ELSE IF ConflictFiles(f, ds, SpecNames, Kinds, Devs) = {} /\ MayFailFiles(f, ds, SpecNames) = {}
                        /\ \A i \in 1..Len(ds) : f[ds[i]].st \in {"dir", "missing"} THEN "nil"
                ELSE "any"]
 
@@ -160,7 +161,7 @@ LastDir == dirs[Len(dirs)]
 ApiWrite(n, c) ==
   /\ Budget /\ Mutate /\ Len(dirs) > 0 /\ n \in SpecNames /\ c.k = "ok"
   /\ LET D == LastDir IN
-     IF fs[D].st \in {"dir", "missing"}
+     IF fs[D].st \in {"dir", "missing"} /\ fs[D].ents[n].k # "dirent"
      THEN /\ fs' = [fs EXCEPT ![D] = [st |-> "dir", ents |-> [fs[D].ents EXCEPT ![n] = c]]]
           /\ hist' = Append(hist, Step("apiwrite", D, n, c, "", NoTok, <<"ok">>, NoView))
      ELSE /\ fs' = fs
@@ -172,9 +173,9 @@ ApiWrite(n, c) ==
 ApiRemove(n) ==
   /\ Budget /\ Mutate /\ Len(dirs) > 0 /\ n \in SpecNames
   /\ LET D == LastDir IN
-     /\ fs' = IF fs[D].st = "dir" THEN [fs EXCEPT ![D].ents[n] = NoneC] ELSE fs
+     /\ fs' = IF fs[D].st = "dir" /\ fs[D].ents[n].k # "dirent" THEN [fs EXCEPT ![D].ents[n] = NoneC] ELSE fs
      /\ hist' = Append(hist, Step("apiremove", D, n, NoneC, "", NoTok,
-                        IF fs[D].st \in {"dir", "missing"} THEN <<"ok">> ELSE <<"any">>, NoView))
+                        IF fs[D].st \in {"dir", "missing"} /\ fs[D].ents[n].k # "dirent" THEN <<"ok">> ELSE <<"any">>, NoView))
   /\ fresh' = FALSE
   /\ UNCHANGED <<dirs, idx, fs0>>
 
@@ -212,6 +213,7 @@ IsolationOK ==
   fresh =>
     /\ FilesInError(fs, dirs, SpecNames) \subseteq idx.errs
     /\ idx.errs \subseteq FilesInError(fs, dirs, SpecNames) \cup ConflictFiles(fs, dirs, SpecNames, Kinds, Devs)
+                           \cup MayFailFiles(fs, dirs, SpecNames)
 
 \* C16: what WriteSpec wrote resolves there after a refresh unless the same directory
 \* holds another definition; checked as an action property on the Refresh that follows
@@ -220,7 +222,7 @@ WriteWins ==
         LET s == hist[Len(hist)] IN
         \A d \in s.c.ds :
            \/ idx'.devs[<<s.c.kind, d>>] = [p |-> Len(dirs), f |-> s.n]
-           \/ \E m \in SpecNames \ {s.n} : fs[LastDir].ents[m].k = "ok" /\ fs[LastDir].ents[m].kind = s.c.kind
+           \/ \E m \in SpecNames \ {s.n} : fs[LastDir].ents[m].k \in ValidKinds /\ fs[LastDir].ents[m].kind = s.c.kind
                                             /\ d \in fs[LastDir].ents[m].ds ]_vars
 
 TypeOK ==
